@@ -4,7 +4,7 @@ import re
 import sympy as sp
 
 from ..facts import AnalysisBroken, walk, strip_targs
-from ..pp import pp, skip
+from ..pp import pp, skip, canon_text as CT
 from ..util import (args, assignment, callee, incdec, is_call, obj, strip_not, literal_value, find_var, parameter_name, writes_in,
                     root_of, unwrap_view)
 from ..util import ref_decl_v as ref_decl
@@ -154,7 +154,7 @@ def rule_kernels(F, R):
     g = pv[0]
     ifs = [x for x in g.nodes() if x["k"] == "if"]
     cond = pp(ifs[0]["c"][ifs[0]["r"].index("cond")]) if ifs else None
-    R.check(cond in ("(eq || (fc > 0))", "(eq || (fc > 0.0))"), "R-C05-1", "penalty guard", g.loc(), "a constraint contributes iff it is an equality or violated (fc > 0)",
+    R.check(cond in (CT("(eq || (fc > 0))"), CT("(eq || (fc > 0.0))")), "R-C05-1", "penalty guard", g.loc(), "a constraint contributes iff it is an equality or violated (fc > 0)",
             "penalty guard is %s" % cond)
     vars_ = {v["n"]: pp(v["c"][0]) for v in g.nodes() if v["k"] == "var" and v.get("c")}
     R.check(vars_.get("fx") == "function.vgrad(x, gx)" and vars_.get("fc") == "vgrad(constraint, x, gc)" and vars_.get("eq") == "is_equality(constraint)", "R-C05-1",
